@@ -634,6 +634,9 @@ func (cl *Cluster) Deliver(m Msg) {
 	case "crashed":
 		return
 	}
+	if cl.Inconclusive != "" {
+		return // the run is over (an event loop did not quiesce or a proposer starved): do not pile more work on it
+	}
 	cl.topUp()
 	to.Received = append(to.Received, Recv{Payload: m.Payload, Step: cl.StepNo, From: m.From})
 	to.EL.AddEvent(m.Payload)
@@ -643,6 +646,9 @@ func (cl *Cluster) Deliver(m Msg) {
 // FireTimeout makes a stack's view timer fire for its current view.
 func (cl *Cluster) FireTimeout(st *Stack) {
 	if !st.Live() {
+		return
+	}
+	if cl.Inconclusive != "" {
 		return
 	}
 	cl.topUp()
